@@ -126,4 +126,51 @@ def boundOKIv (I B S : Int) (obs : List (Int × Int)) : Bool :=
 
 end Spec
 
+/-! ## The task handler: which executions wait, and how many processes one token starts -/
+
+/-- What a queued `HookRun` task is for (the type of its first binding context). -/
+inductive RunKind where
+  | onStartup | schedule | kubeEvent | synchronization
+  deriving DecidableEq, Repr
+
+/-- How the hook process of an execution ends: exit 0, a non-zero exit code, death from a signal
+(OOM killer, `kill -9`: `exec.ExitError` with `ExitCode() == -1`). -/
+inductive Outcome where
+  | ok | exitCode | signal
+  deriving DecidableEq, Repr
+
+/-- A queued `HookRun` task as `taskHandleHookRun` sees it: its kind, the moment `t` the queue worker
+enters the handler (the clock read of `RateLimitWait`), how its hook process is going to end, and
+`executeHookOnSynchronization` of its binding. -/
+structure HookRunTask where
+  kind : RunKind
+  t : Int
+  out : Outcome
+  runOnSync : Bool := true
+  deriving Repr
+
+/-- `ShellOperator.handleRunHook` → `Hook.Run` → `Executor.RunAndLogLines` → `cmd.Run()`: ONE process
+is started, at the moment the handler got its token, and nothing in this chain starts another one —
+whatever the way the process ends (skeletons `C18.handleRunHook`, `C18.Hook.Run`,
+`C18.Executor.RunAndLogLines`: one call each, no loop, no second call on an error branch). A failed
+execution is retried by the QUEUE, i.e. through `taskHandleHookRun` and its `RateLimitWait` again. -/
+def hookRun (g : Int) (_out : Outcome) : List Int := [g]
+
+/-- `ShellOperator.taskHandleHookRun`: `RateLimitWait` is its first statement, for every kind of
+task (skeleton `C18.taskHandleHookRun`: the call is not under any condition); a failed wait returns
+`Repeat` and starts nothing; a Synchronization of a binding with `executeHookOnSynchronization: false`
+has spent its token and starts nothing; everything else goes to `handleRunHook`.
+Returns the limiter state and the start times of the processes started. -/
+def handleHookRun (l : Lim) (s : LState) (tk : HookRunTask) : LState × List Int :=
+  match reserve l s tk.t with
+  | (s', none) => (s', [])
+  | (s', some g) =>
+    if tk.kind = .synchronization ∧ tk.runOnSync = false then (s', [])
+    else (s', hookRun g tk.out)
+
+/-- The tasks of one hook in the order in which their handlers take the limiter's mutex. -/
+def runTasks (l : Lim) : LState → List HookRunTask → List Int
+  | _, [] => []
+  | s, tk :: tks => (handleHookRun l s tk).2 ++ runTasks l (handleHookRun l s tk).1 tks
+
 end ShellOp.RateLimit
